@@ -244,6 +244,7 @@ class Ctx:
     def case(self, case, nontrivial=True, sample=True):
         """register one explored case (for the evidence counts)"""
         self.evaluations += 1
+        self.last_case = case
         if nontrivial:
             self.distinct.add(hashlib.sha1(canon(case).encode()).hexdigest())
         if sample and len(self.samples) < 4 and (self.evaluations % 7 == 1):
